@@ -19,6 +19,34 @@ var varKinds = []*Kind{
 	{Name: "MkGet", Print: func(p *Printer, s *Stmt) { p.W("g = func() int { return x }") }},
 	{Name: "CallGet", EventFirst: true, Print: func(p *Printer, s *Stmt) { p.W("c.X(%d, g())", p.ID()) }},
 
+	// multi-name short declaration that re-declares x next to a new name
+	{Name: "Decl2", Print: func(p *Printer, s *Stmt) { p.W("x, w2 := x*10+%d, 1", p.ID()); p.W("_, _ = x, w2") }},
+	// pointer to the current x, read later
+	{Name: "MkPtr", Print: func(p *Printer, s *Stmt) { p.W("g = func(p *int) func() int { return func() int { return *p } }(&x)") }},
+	// range over an iterator inside the generator: x := range VSrc(c)
+	{Name: "RangeIter", Arity: 1, Loop: true, EventFirst: true, Print: func(p *Printer, s *Stmt) {
+		if !p.Ref {
+			p.W("for x := range VSrc(c) {")
+			p.Blk(s.Ch[0])
+			p.W("}")
+			return
+		}
+		// reference: the pull loop; one variable per loop (go < 1.22), body in its own scope
+		p.W("{")
+		p.In()
+		p.W("var x int")
+		p.W("_ = x")
+		p.W("for it := VSrc(c); it.MoveNext(); {")
+		p.In()
+		p.W("x = it.Current()")
+		p.W("{")
+		p.Blk(s.Ch[0])
+		p.W("}")
+		p.Out()
+		p.W("}")
+		p.Out()
+		p.W("}")
+	}},
 	{Name: "IfElse", Arity: 2, EventFirst: true, Print: func(p *Printer, s *Stmt) {
 		p.W("if c.B(%d) {", p.ID())
 		p.Blk(s.Ch[0])
@@ -111,3 +139,37 @@ func VarPrograms(lo, hi int) []List {
 	}
 	return out
 }
+
+// VarSExtra / VarRExtra: the helper generator of the RangeIter kind, in both dialects.
+const VarSExtra = `package src
+
+import (
+	. "github.com/goghcrow/go-co"
+	"verif/rt"
+)
+
+func VSrc(c *rt.Ctx) Iter[int] {
+	c.E(8001)
+	Yield(7)
+	c.E(8002)
+	Yield(8)
+	return nil
+}
+`
+
+const VarRExtra = `package ref
+
+import (
+	"verif/refco"
+	"verif/rt"
+)
+
+func VSrc(c *rt.Ctx) refco.Iter[int] {
+	return refco.New(c, func(y *refco.Y[int]) {
+		c.E(8001)
+		y.Yield(7)
+		c.E(8002)
+		y.Yield(8)
+	})
+}
+`
